@@ -3,8 +3,8 @@ CONSTANTS
   NClasses = 3
   NInsts = 2
   Bodies = {}
-  Cfgs = {"pmaxK", "pvalmm"}
-  Muts = {"setmax"}
+  Cfgs = {"pmaxK"}
+  Muts = {"setmax", "sctopt"}
   DescIds = {"d"}
   MaxBases = 2
   MaxMuts = 1
